@@ -59,11 +59,11 @@ PROPS = {
     'C05': dict(
         level='proof',
         explain='MemQueue/MemQueues/MultiRecordLog operations proved against the sequential queue-map spec (QView, LogView) written from the property text, '
-                'over the whole view, including the wrapper append_record (= append_records of a one-element batch, @sameas) and position_to_idx (over the assumed std contract of binary_search_by_key, cross-checked bounded by K-p2i); RollingBuffer::get_range is VERIFIED for every bound kind and every ring layout (O-C05-getrange: left slice, right slice, re-assembly across the wrap; rule R22); MemQueue::range, MemQueues::range and MultiRecordLog::range are VERIFIED (O-C05-range, O-C05-mqs-range, O-C05-api-range): for every range and every queue the iterator yields exactly the retained records whose position lies in the range -- a contiguous run of the view, in order, byte for byte, and no record outside the run is in range -- over the assumed std contract of the `(a..b).take_while(p).map(f)` adapter chain (R24) and of RangeBounds::{start_bound,contains} (R22); the Kani harnesses K-range-*, K-getrange-* stay in the thorough tier as bounded cross-checks of those assumed contracts on the real code.',
+                'over the whole view, including the wrapper append_record (= append_records of a one-element batch, @sameas) and position_to_idx (over the assumed std contract of binary_search_by_key, cross-checked bounded by K-p2i); RollingBuffer::get_range is VERIFIED for every bound kind and every ring layout (O-C05-getrange: left slice, right slice, re-assembly across the wrap; rule R22); MemQueue::range, MemQueues::range and MultiRecordLog::range are VERIFIED (O-C05-range, O-C05-mqs-range, O-C05-api-range): for every range and every queue the iterator yields exactly the retained records whose position lies in the range -- a contiguous run of the view, in order, byte for byte, and no record outside the run is in range -- over the assumed std contract of the `(a..b).take_while(p).map(f)` adapter chain (R24) and of RangeBounds::{start_bound,contains} (R22); the Kani harnesses K-range-*, K-getrange-* stay in the thorough tier as bounded cross-checks of those assumed contracts on the real code. summary (MemQueue / MemQueues / MultiRecordLog) and list_queues are VERIFIED: the summary has exactly the queues of the view with their start and last positions (O-C05-summary, loop over the vstd contract of HashMap::iter, R13); list_queues yields exactly the queue names, each once (O-C05-list, R28 shim for Iterator::map over the vstd contract of HashMap::keys).',
         kani_quick=[], kani_thorough=['K-p2i'] + ['K-getrange-r%d' % r for r in range(4)] + ['K-range-%s' % k for k in ('ii', 'ie', 'iu', 'ei', 'ee', 'eu', 'ui', 'ue', 'uu')],
         trusted=['RangeBounds::{start_bound,end_bound} through a generic bound return vstd\'s spec value (R22 shims) and VecDeque::as_slices().0 ++ .1 == contents (assumed std contracts; K-getrange cross-checks both on the real code, bounded)', '<[T]>::binary_search_by_key, iter::once (assumed std contracts; K-p2i cross-checks the former, bounded)', '(a..b).take_while(p).map(f) yields f(a..k) up to the first index p rejects (R24 shim, assumed std contract; K-range-* cross-check it on the real code, bounded)',
                  'MultiRecord::{serialize,serialize_with_pos} are VERIFIED over the assumed contracts of bytes::Buf (R10: a cursor over a byte string; chunk() a non-empty prefix while bytes remain) and of (start..).zip(it) (R19); the payload iterator is assumed to obey vstd\'s iterator laws and to be finite (iter_ok, a precondition of append_records)', 'HashMap::get_mut (assumed std contract)', 'RollingBuffer::extend'],
-        not_decided=['summary, list_queues (iterator adapters over HashMap): unverified'],
+        not_decided=['QueueSummary.file_number (MemQueue::first_file_number, a filter_map chain over Arc handles) is not specified'],
     ),
     'C06': dict(
         level='other',
